@@ -5,6 +5,16 @@
 // and answers, callbacks, Stop / cancel, return) and writes it as a Coq case that the
 // model replays.  The direct property oracle (independent of the model) is evaluated on
 // the delivered (index, bytes) multiset.
+//
+// Determinism for a fixed VERIF_SEED: every call the implementation makes into the harness
+// (GetSTH, GetRawEntries, the fetcher callback, foundCert / foundPrecert) waits at a gate;
+// the controller waits until the whole bubble is quiescent (synctest.Wait), then releases
+// ONE waiting call chosen by the case's PRNG - so the interleaving is a function of the
+// seed, and it varies from case to case.  Time is virtual; the global math/rand source
+// (trillian's back-off jitter) is seeded as if by Seed(1).  What stays outside the
+// harness's control is Go's random choice in genRanges' select after Stop / cancel.
+
+//go:debug randautoseed=0
 package main
 
 import (
@@ -14,6 +24,7 @@ import (
 	"fmt"
 	"io"
 	mrand "math/rand"
+	"runtime"
 	"sort"
 	"sync"
 	"testing"
@@ -211,6 +222,9 @@ type fakeLog struct {
 	storm     bool
 	delivered []deliv
 	found     []foundRec
+	prng      *mrand.Rand
+	pending   []pendCall
+	open      bool
 }
 
 type deliv struct {
@@ -230,7 +244,53 @@ func (l *fakeLog) ev(coq, js string) {
 
 func (l *fakeLog) BaseURI() string { return "scripted" }
 
+type pendCall struct {
+	key string
+	ch  chan struct{}
+}
+
+// gate blocks the calling goroutine until the controller releases it.
+func (l *fakeLog) gate(kind string, a, b int64) {
+	l.mu.Lock()
+	if l.open {
+		l.mu.Unlock()
+		return
+	}
+	c := pendCall{fmt.Sprintf("%s:%012d:%012d", kind, a, b), make(chan struct{})}
+	l.pending = append(l.pending, c)
+	l.mu.Unlock()
+	<-c.ch
+}
+
+// releaseOne lets one waiting call proceed (PRNG choice among the calls waiting, in key order).
+func (l *fakeLog) releaseOne() bool {
+	l.mu.Lock()
+	defer l.mu.Unlock()
+	n := len(l.pending)
+	if n == 0 {
+		return false
+	}
+	sort.SliceStable(l.pending, func(i, j int) bool { return l.pending[i].key < l.pending[j].key })
+	i := l.prng.Intn(n)
+	c := l.pending[i]
+	l.pending = append(l.pending[:i], l.pending[i+1:]...)
+	close(c.ch)
+	return true
+}
+
+// openGates releases everything and lets later calls pass (used once the case is over).
+func (l *fakeLog) openGates() {
+	l.mu.Lock()
+	defer l.mu.Unlock()
+	l.open = true
+	for _, c := range l.pending {
+		close(c.ch)
+	}
+	l.pending = nil
+}
+
 func (l *fakeLog) GetSTH(ctx context.Context) (*ct.SignedTreeHead, error) {
+	l.gate("sth", 0, 0)
 	l.mu.Lock()
 	defer l.mu.Unlock()
 	i := l.sthCalls
@@ -269,11 +329,16 @@ func zlist(v []int64) string {
 }
 
 func (l *fakeLog) GetRawEntries(ctx context.Context, start, end int64) (*ct.GetEntriesResponse, error) {
+	l.gate("req", start, end)
 	l.mu.Lock()
 	defer l.mu.Unlock()
 	l.nreq++
-	if l.nreq > 20000 && !l.storm {
+	if l.nreq > 3000 && !l.storm {
+		// the fetcher re-requests without making progress: keep the head of the log only
 		l.storm = true
+		if len(l.evCoq) > 300 {
+			l.evCoq, l.evJSON = l.evCoq[:300], l.evJSON[:300]
+		}
 		l.ev("EBad", "request-storm")
 		l.cancel()
 	}
@@ -361,6 +426,7 @@ func (l *fakeLog) token(e *ct.LeafEntry) int64 {
 }
 
 func (l *fakeLog) callback(b scanner.EntryBatch) {
+	l.gate("cb", b.Start, int64(len(b.Entries)))
 	l.mu.Lock()
 	defer l.mu.Unlock()
 	var toks []int64
@@ -377,6 +443,7 @@ func (l *fakeLog) callback(b scanner.EntryBatch) {
 
 func (l *fakeLog) foundCb(kind string, keyOf map[string]int) func(*ct.RawLogEntry) {
 	return func(r *ct.RawLogEntry) {
+		l.gate("found-"+kind, r.Index, 0)
 		l.mu.Lock()
 		defer l.mu.Unlock()
 		item, ok := keyOf[string(r.Cert.Data)]
@@ -436,6 +503,7 @@ func runCase(t *testing.T, sp *spec, seed int64) *result {
 		}
 	}
 	res.log, res.coqLog = l, l.tokens
+	l.prng = mrand.New(mrand.NewSource(seed ^ 0x5deece66d))
 
 	synctest.Test(t, func(t *testing.T) {
 		ctx, cancel := context.WithCancel(context.Background())
@@ -479,11 +547,32 @@ func runCase(t *testing.T, sp *spec, seed int64) *result {
 				res.retOK = err == nil
 			}()
 		}
-		select {
-		case <-done:
-		case <-time.After(72 * time.Hour): // virtual
-			res.hang = true
-			cancel()
+		deadline := time.Now().Add(72 * time.Hour) // virtual
+		finished := func() bool {
+			select {
+			case <-done:
+				return true
+			default:
+				return false
+			}
+		}
+		for {
+			synctest.Wait() // every goroutine of the bubble is blocked: at a gate, on a timer, or for good
+			if finished() {
+				break
+			}
+			if l.releaseOne() {
+				continue
+			}
+			if time.Now().After(deadline) {
+				res.hang = true
+				break
+			}
+			time.Sleep(500 * time.Millisecond) // nobody is waiting for us: let the back-off timers run
+		}
+		cancel()
+		l.openGates()
+		if res.hang {
 			l.mu.Lock()
 			stop := l.stop
 			l.mu.Unlock()
@@ -494,7 +583,6 @@ func runCase(t *testing.T, sp *spec, seed int64) *result {
 				panic("c16: implementation does not return even after cancellation")
 			}
 		}
-		cancel()
 		time.Sleep(5 * time.Minute) // let abandoned timers and the generator goroutine finish inside the bubble
 	})
 	return res
@@ -1025,6 +1113,12 @@ func TestHarness(t *testing.T) {
 	klog.SetOutput(io.Discard)
 	if *lib.OutDir == "" {
 		t.Skip("-out not given")
+	}
+	if lib.Tier() == "quick" {
+		// one P: goroutines between two gates do not race each other in real time (channel
+		// hand-overs between fetch workers and matchers become reproducible); the thorough
+		// tier keeps real parallelism for the race detector
+		defer runtime.GOMAXPROCS(runtime.GOMAXPROCS(1))
 	}
 	buildPool()
 	r := lib.Rand()
